@@ -79,7 +79,7 @@ def normalise(text):
     return "\n".join(sorted(out))
 
 
-def _gen_collection(rnd, reparse_safe, with_seq, chunk):
+def _gen_collection(rnd, reparse_safe, with_seq, chunk, narrow=False):
     from inscripta.biocantor.gene.biotype import Biotype
     from inscripta.biocantor.gene.collections import AnnotationCollection
     from inscripta.biocantor.gene.feature import FeatureInterval, FeatureIntervalCollection
@@ -90,14 +90,17 @@ def _gen_collection(rnd, reparse_safe, with_seq, chunk):
     from inscripta.biocantor.sequence import Sequence
     from inscripta.biocantor.sequence.alphabet import Alphabet
 
-    L = 120
+    L = rnd.choice([120, 120, 121, 181, 119, 61 + 60 * rnd.randrange(1, 3)])  # lengths around the FASTA line width (60) too
     R = "".join(rnd.choice("ACGT") for _ in range(L))
     off = 0
     par = None
     if with_seq:
         if chunk:
             off = rnd.randrange(0, 10)
-            par = seq_chunk_to_parent(R[off:L - 3], "chr1", off, L - 3)
+            # narrow: a window that ends in the middle of the annotation -- genes straddle its end (an isoform inside, one
+            # outside) or lie beyond it; the chromosome-coordinate export is about the chromosome structure all the same
+            hi = rnd.randrange(18, 40) if narrow else L - 3
+            par = seq_chunk_to_parent(R[off:hi], "chr1", off, hi)
         else:
             par = Parent(id="chr1", sequence=Sequence(R, Alphabet.NT_EXTENDED_GAPPED, id="chr1", type=SequenceType.CHROMOSOME))
     T = lambda: _text(rnd, allow_comma_quote=not reparse_safe)  # noqa: E731
@@ -126,9 +129,9 @@ def _gen_collection(rnd, reparse_safe, with_seq, chunk):
 
     model, genes, fcs = [], [], []
     pos = 12
-    for gi in range(rnd.randrange(1, 4)):
+    for gi in range(rnd.randrange(1, 4) if not narrow else 1):
         st = rnd.choice("+-")
-        k = rnd.randrange(1, 4)
+        k = rnd.randrange(1, 4) if not narrow else rnd.randrange(2, 4)
         blocks = []
         p = pos
         for _ in range(k):
@@ -150,8 +153,8 @@ def _gen_collection(rnd, reparse_safe, with_seq, chunk):
             txs, tmodel = [], []
             gquals = quals()
             gtype = rnd.choice([Biotype.protein_coding, Biotype.lncRNA])
-            for ti in range(rnd.randrange(1, 3)):
-                tb = blocks if ti == 0 else blocks[:max(1, len(blocks) - 1)]
+            for ti in range(rnd.randrange(1, 3) if not narrow else 2):
+                tb = blocks if ti == 0 else (blocks[-1:] if (narrow and rnd.random() < 0.7) else blocks[:max(1, len(blocks) - 1)])
                 n = sum(b[1] - b[0] for b in tb)
                 coding = rnd.random() < 0.7 and n >= 6
                 cds = frames = None
@@ -178,8 +181,13 @@ def _gen_collection(rnd, reparse_safe, with_seq, chunk):
         pos = blocks[-1][1] + rnd.randrange(0, 8)
     if not genes and not fcs:
         return None
-    coll = AnnotationCollection(feature_collections=fcs, genes=genes, sequence_name="chr1",
-                                parent_or_seq_chunk_parent=par)
+    try:
+        coll = AnnotationCollection(feature_collections=fcs, genes=genes, sequence_name="chr1",
+                                    parent_or_seq_chunk_parent=par)
+    except Exception:
+        if narrow:
+            return None
+        raise
     model.sort(key=lambda m: m[1])
     return coll, model, off
 
@@ -235,11 +243,17 @@ def _events(args):
         reparse_safe = rnd.random() < 0.5
         with_seq = rnd.random() < 0.5
         chunk = with_seq and rnd.random() < 0.4
-        built = _gen_collection(rnd, reparse_safe, with_seq, chunk)
+        narrow = chunk and rnd.random() < 0.35
+        try:
+            built = _gen_collection(rnd, reparse_safe, with_seq, chunk, narrow)
+        except Exception:
+            if not narrow:
+                raise
+            built = None   # an interval constructor refused the narrow window: nothing to export
         if not built:
             continue
         coll, model, off = built
-        chunk_mode = chunk and rnd.random() < 0.5
+        chunk_mode = chunk and not narrow and rnd.random() < 0.5
         add_seq = with_seq and (chunk_mode or not chunk) and rnd.random() < 0.6
         buf = io.StringIO()
         # what the rows must decode to is fixed BEFORE the export runs (an export that alters the qualifiers it reads
@@ -260,6 +274,10 @@ def _events(args):
             colls = [coll] if rnd.random() < 0.6 else (c for c in [coll])
             collection_to_gff3(colls, buf, add_sequences=add_seq, chromosome_relative_coordinates=not chunk_mode)
         except Exception as ex:
+            from bcverif import encode as E
+
+            if narrow and E.exc_name(ex) in E.documented_exceptions():
+                continue  # a member with nothing on the chunk cannot always be written: a documented refusal
             ev.append(["gff", 0, model, [[0, type(ex).__name__, "", "", 0, 0, "", "", "", [], False]], False])
             continue
         text = buf.getvalue()
